@@ -98,7 +98,7 @@ open_("D3", "C01", "a transaction open at the crash on a table whose CREATE is s
 open_("D3b", "C08", "an uncommitted CREATE TABLE in the log at the crash makes open fail ('Table not found' while undoing it)", "O-open", "uncommitted_create_at_crash", "findings/D3b-uncommitted-create-at-crash.json")
 open_("D22b", "C01", "a crash inside a checkpoint, between its first page write and the log truncation, loses acknowledged rows or leaves tables unreadable (logical redo over half-written pages)", "O-durability", "crash_inside_checkpoint", "findings/D22b-crash-inside-checkpoint.json")
 open_("F4", "C01", "a checkpoint taken while a transaction is open writes its uncommitted changes and discards the log: after a crash they are permanent", "O-durability", "checkpoint_with_open_txn", "findings/F4-checkpoint-with-open-txn.json")
-open_("F5", "C02", "a transaction that inserted and then deleted a row and is open (or failed) at the crash leaves that row behind after recovery", "O-atomicity", "delete_of_own_insert", "findings/F5-own-insert-then-delete-open-at-crash.json")
+fixed("F5", "C02", "d9227de", "a transaction that inserted and then deleted a row and is open (or failed) at the crash left that row behind after recovery", "O-atomicity", "findings/F5-own-insert-then-delete-open-at-crash.json")
 open_("D6c", "C01", "DROP TABLE writes freed pages to the file before the transaction commits; a crash then makes open fail while redoing the table's logged rows", "O-open", "drop_table_before_crash", "findings/D6c-drop-table-writes-pages-before-commit.json")
 open_("F7", "C01", "recovery of rows with overflow chains (several KB of text) leaves the table unreadable (panic at storage/core/buffer.rs:570)", "O-open", "big_rows_before_crash", "findings/F7-recovery-of-rows-with-overflow-chains.json")
 open_("D6d", "C01", "deleting a row with an overflow chain writes the freed pages to the file before commit; after a crash the acknowledged row comes back corrupted", "O-durability", "big_rows_before_crash", "findings/D6d-delete-of-overflow-row-writes-pages-before-commit.json")
